@@ -753,6 +753,21 @@ def run_reserve(pair, rng, variant, opts):
         return g
 
     deposited = False
+    if variant in UNBL and rng.chance(1, 2) and len(pending) >= 2:
+        # prelude: a guarantee holder whose guaranteed count is smaller than his threshold is blacklisted and
+        # un-blacklisted again — the round trip must leave the reserve exactly where it was
+        h, pending = pending[0], pending[1:]
+        if variant in V1ALLOC:
+            args = [1, h, su.minc + 1, 1, 1]
+        else:
+            args = [1, h, 4, 2, 1, 3, 1, 4]
+        if tr.call(OWNER, ep, args)["st"] == "ok":
+            allocated.append(h)
+            tr.dump()
+            if tr.call(OWNER, "blacklist", [1, h])["st"] == "ok":
+                tr.dump()
+                tr.call(OWNER, "unblacklist", [1, h])
+            tr.dump()
     for stepi in range(rng.range(10, 22)):
         k = rng.below(10)
         if k < 3 and pending:
